@@ -158,48 +158,49 @@ theorem cmpDigits_spec {r Y : Nat} (hr : 0 < r) (hY : 0 < Y) : ∀ (ds : List Na
 
 /-! ## the limb level -/
 
-/-- the divisor after the normalisation step of `byte_comp`: top limb at least `2^57`, and `radix·(top + 1) ≤ 2^64`, so
-that every numerator `rem·radix` still has at most as many limbs -/
+/-- the divisor after the normalisation step of `byte_comp`: its top limb exceeds `radix + 1`, and
+`(radix + 1)·(top + 1) ≤ 2^64`, so that every numerator below `(radix + 1)·den` has at most as many limbs -/
 structure DenOk (cap radix : Nat) (den : Limbs) : Prop where
   norm : Normalized den
-  top : ∃ ys yn1, den = ys ++ [yn1] ∧ 2 ^ 57 ≤ yn1 ∧ radix * (yn1 + 1) ≤ B64
+  top : ∃ ys yn1, den = ys ++ [yn1] ∧ radix + 2 ≤ yn1 ∧ (radix + 1) * (yn1 + 1) ≤ B64
   len : den.length ≤ cap
   r2 : 2 ≤ radix
 
-/-- a numerator: normalised, at most as many limbs as the divisor -/
-def NumOk (den num : Limbs) : Prop := Normalized num ∧ valL num < B64 ^ den.length
+/-- a numerator: normalised, below `(radix + 1)·den` (the quotient digit is at most `radix`) -/
+def NumOk (radix : Nat) (den num : Limbs) : Prop := Normalized num ∧ valL num < (radix + 1) * valL den
 
 theorem denOk_facts {cap radix : Nat} {den : Limbs} (D : DenOk cap radix den) :
-    0 < valL den ∧ radix * valL den ≤ B64 ^ den.length ∧ 2 ^ 57 * B64 ^ (den.length - 1) ≤ valL den ∧ radix < B64 := by
-  obtain ⟨ys, yn1, rfl, h57, hr⟩ := D.top
+    0 < valL den ∧ (radix + 1) * valL den ≤ B64 ^ den.length ∧ radix + 1 < 2 ^ 32 := by
+  obtain ⟨ys, yn1, rfl, hy, hr⟩ := D.top
   have oys := (limbsOk_append.mp D.norm.1).1
   have hys := valL_lt oys
   have hpos : 0 < B64 ^ ys.length := Nat.pow_pos B64_pos
   rw [valL_append]
-  simp only [List.length_append, List.length_singleton, Nat.add_sub_cancel]
-  refine ⟨?_, ?_, ?_, ?_⟩
-  · have : 0 < B64 ^ ys.length * yn1 := Nat.mul_pos hpos (by have := Nat.two_pow_pos 57; omega)
+  simp only [List.length_append, List.length_singleton]
+  refine ⟨?_, ?_, ?_⟩
+  · have : 0 < B64 ^ ys.length * yn1 := Nat.mul_pos hpos (by omega)
     omega
   · rw [Nat.pow_succ]
-    have h1 : radix * (valL ys + B64 ^ ys.length * yn1) ≤ radix * (B64 ^ ys.length * (yn1 + 1)) :=
+    have h1 : (radix + 1) * (valL ys + B64 ^ ys.length * yn1) ≤ (radix + 1) * (B64 ^ ys.length * (yn1 + 1)) :=
       Nat.mul_le_mul_left _ (by rw [Nat.mul_add, Nat.mul_one]; omega)
-    have h2 : radix * (B64 ^ ys.length * (yn1 + 1)) = B64 ^ ys.length * (radix * (yn1 + 1)) := by ring
-    have h3 : B64 ^ ys.length * (radix * (yn1 + 1)) ≤ B64 ^ ys.length * B64 := Nat.mul_le_mul_left _ hr
+    have h2 : (radix + 1) * (B64 ^ ys.length * (yn1 + 1)) = B64 ^ ys.length * ((radix + 1) * (yn1 + 1)) := by ring
+    have h3 : B64 ^ ys.length * ((radix + 1) * (yn1 + 1)) ≤ B64 ^ ys.length * B64 := Nat.mul_le_mul_left _ hr
     omega
-  · have : 2 ^ 57 * B64 ^ ys.length ≤ B64 ^ ys.length * yn1 := by
-      rw [Nat.mul_comm]; exact Nat.mul_le_mul_left _ h57
-    omega
-  · have : radix * 1 ≤ radix * (yn1 + 1) := Nat.mul_le_mul_left _ (by omega)
-    have h2 := D.r2
-    have : radix * (yn1 + 1) ≥ radix * 2 := Nat.mul_le_mul_left _ (by have := Nat.two_pow_pos 57; omega)
+  · have h1 : (radix + 1) * (radix + 1) ≤ (radix + 1) * (yn1 + 1) := Nat.mul_le_mul_left _ (by omega)
+    have hB : B64 = 2 ^ 32 * 2 ^ 32 := by unfold B64; norm_num
+    apply Classical.byContradiction; intro hcon
+    have : 2 ^ 32 * 2 ^ 32 ≤ (radix + 1) * (radix + 1) := Nat.mul_le_mul (by omega) (by omega)
+    have : (radix + 1) * (radix + 1) < (radix + 1) * (yn1 + 1) := Nat.mul_lt_mul_of_pos_left (by omega) (by omega)
     omega
 
-theorem numOk_length {den num : Limbs} (h : NumOk den num) : num.length ≤ den.length := by
+theorem numOk_length {cap radix : Nat} {den num : Limbs} (D : DenOk cap radix den) (h : NumOk radix den num) :
+    num.length ≤ den.length := by
+  obtain ⟨_, hrY, _⟩ := denOk_facts D
   by_cases hne : num = []
   · subst hne; simp
   · have h1 := valL_ge h.1 hne
     have h3 : B64 ^ (num.length - 1) < B64 ^ den.length := by have := h.2; omega
-    have := (Nat.pow_lt_pow_iff_right (by unfold B64; decide : 1 < B64)).mp h3
+    have := (Nat.pow_lt_pow_iff_right (by unfold B64; norm_num : 1 < B64)).mp h3
     omega
 
 theorem isEmpty_iff {num : Limbs} (h : Normalized num) : num.isEmpty = true ↔ valL num = 0 := by
@@ -207,49 +208,45 @@ theorem isEmpty_iff {num : Limbs} (h : Normalized num) : num.isEmpty = true ↔ 
   cases num <;> simp
 
 /-- **one digit**: `quorem`, compare with the input digit, multiply the remainder by the radix -/
-theorem stepDigit_spec {cap radix : Nat} {den num : Limbs} (D : DenOk cap radix den) (N : NumOk den num) (c : Nat) :
+theorem stepDigit_spec {cap radix : Nat} {den num : Limbs} (D : DenOk cap radix den) (N : NumOk radix den num) (c : Nat) :
     (Binary.digitVal c radix < valL num / valL den → stepDigit cap radix c num den = .done .lt) ∧
     (Binary.digitVal c radix > valL num / valL den → stepDigit cap radix c num den = .done .gt) ∧
     (Binary.digitVal c radix = valL num / valL den →
-      ∃ num', stepDigit cap radix c num den = .cont num' ∧ NumOk den num' ∧
+      ∃ num', stepDigit cap radix c num den = .cont num' ∧ NumOk radix den num' ∧
         valL num' = valL num % valL den * radix) := by
-  obtain ⟨hYpos, hrY, hY57, hrB⟩ := denOk_facts D
+  obtain ⟨hYpos, hrY, hr32⟩ := denOk_facts D
   have hr2 := D.r2
-  obtain ⟨ys, yn1, hden, h57, hr⟩ := D.top
-  have hnl := numOk_length N
+  have hnl := numOk_length D N
+  obtain ⟨ys, yn1, hden, hyr, hr⟩ := D.top
   have hdl : den.length = ys.length + 1 := by rw [hden]; simp
   have hyB : yn1 + 1 < B64 := by
-    have : 2 * (yn1 + 1) ≤ radix * (yn1 + 1) := Nat.mul_le_mul_right _ hr2
+    have : 3 * (yn1 + 1) ≤ (radix + 1) * (yn1 + 1) := Nat.mul_le_mul_right _ (by omega)
+    omega
+  have hrB : radix < B64 := by
+    have : (2 : Nat) ^ 32 < B64 := by unfold B64; norm_num
     omega
   obtain ⟨R, hq, nR, vR⟩ := largeQuoremL_spec (x := num) (ys := ys) (yn1 := yn1) N.1 (by rw [← hden]; exact D.norm)
-    (by omega) h57 hyB
+    (by omega) (radix + 1) (by rw [← hden]; exact N.2) (by omega) hyB
   rw [← hden] at hq vR
   -- the quotient is a small number
   have hqs : valL num / valL den < 2 ^ 32 := by
-    rw [Nat.div_lt_iff_lt_mul hYpos]
-    have h1 := N.2
-    rw [hdl, Nat.pow_succ] at h1
-    rw [hdl, Nat.add_sub_cancel] at hY57
-    have h2 : 2 ^ 32 * (2 ^ 57 * B64 ^ ys.length) ≤ 2 ^ 32 * valL den := Nat.mul_le_mul_left _ hY57
-    have h3 : B64 ^ ys.length * B64 ≤ 2 ^ 32 * (2 ^ 57 * B64 ^ ys.length) := by
-      have : B64 ≤ 2 ^ 32 * 2 ^ 57 := by unfold B64; norm_num
-      calc B64 ^ ys.length * B64 ≤ B64 ^ ys.length * (2 ^ 32 * 2 ^ 57) := Nat.mul_le_mul_left _ this
-        _ = 2 ^ 32 * (2 ^ 57 * B64 ^ ys.length) := by ring
+    have : valL num / valL den < radix + 1 := by
+      rw [Nat.div_lt_iff_lt_mul hYpos]; exact N.2
     omega
   have hml := Nat.mod_lt (valL num) hYpos
   -- the remainder times the radix
-  have hRr : valL R * radix < B64 ^ den.length := by
-    rw [vR]
-    have : valL num % valL den * radix < valL den * radix := Nat.mul_lt_mul_of_pos_right hml (by omega)
-    have : valL den * radix = radix * valL den := Nat.mul_comm _ _
-    omega
+  have hRr : valL R * radix < radix * valL den := by
+    rw [vR, Nat.mul_comm radix]
+    exact Nat.mul_lt_mul_of_pos_right hml (by omega)
   have hRl : R.length ≤ cap := by
-    have : NumOk den R := ⟨nR, by
+    have : NumOk radix den R := ⟨nR, by
       have : valL R * 1 ≤ valL R * radix := Nat.mul_le_mul_left _ (by omega)
+      have : radix * valL den ≤ (radix + 1) * valL den := Nat.mul_le_mul_right _ (by omega)
       omega⟩
-    have := numOk_length this
+    have := numOk_length D this
     have := D.len
     omega
+  have hle1 : radix * valL den ≤ (radix + 1) * valL den := Nat.mul_le_mul_right _ (by omega)
   obtain ⟨m1, m2⟩ := smallMulL_spec (cap := cap) nR hRl (y := radix) (by omega) hrB
   obtain ⟨z, hz⟩ := m2 (by
     have : B64 ^ den.length ≤ B64 ^ cap := Nat.pow_le_pow_right B64_pos D.len
@@ -261,7 +258,7 @@ theorem stepDigit_spec {cap radix : Nat} {den num : Limbs} (D : DenOk cap radix 
   refine ⟨fun h => by rw [if_pos h], fun h => ?_, fun h => ?_⟩
   · rw [if_neg (by omega), if_pos h]
   · rw [if_neg (by omega), if_neg (by omega)]
-    exact ⟨z, rfl, ⟨nz, by rw [vz]; exact hRr⟩, by rw [vz, vR]⟩
+    exact ⟨z, rfl, ⟨nz, by rw [vz]; omega⟩, by rw [vz, vR]⟩
 
 theorem anyNonzero_dv {radix : Nat} : ∀ (bs : List Nat), (∀ c ∈ bs, c < 256) →
     anyNonzero bs = (dv radix bs).any (· ≠ 0)
@@ -284,10 +281,10 @@ theorem anyNonzero_dv {radix : Nat} : ∀ (bs : List Nat), (∀ c ∈ bs, c < 25
 
 /-- `integer_compare!` follows `stepsN` -/
 theorem integerCompare_spec {cap radix : Nat} {den : Limbs} (D : DenOk cap radix den) :
-    ∀ (bs : List Nat) (num : Limbs), (∀ c ∈ bs, c < 256) → NumOk den num →
+    ∀ (bs : List Nat) (num : Limbs), (∀ c ∈ bs, c < 256) → NumOk radix den num →
       match stepsN radix (valL den) (dv radix bs) (valL num) with
       | .inl o => integerCompare cap radix den bs num = .done o
-      | .inr x' => ∃ num', integerCompare cap radix den bs num = .cont num' ∧ NumOk den num' ∧ valL num' = x'
+      | .inr x' => ∃ num', integerCompare cap radix den bs num = .cont num' ∧ NumOk radix den num' ∧ valL num' = x'
   | [], num, _, N => by
     simp only [dv, List.map_nil, stepsN, integerCompare]
     exact ⟨num, rfl, N, rfl⟩
@@ -323,7 +320,7 @@ theorem integerCompare_spec {cap radix : Nat} {den : Limbs} (D : DenOk cap radix
 
 /-- `fraction_compare!` follows `stepsN`, then decides at the end of the input -/
 theorem fractionCompare_spec {cap radix : Nat} {den : Limbs} (D : DenOk cap radix den) :
-    ∀ (bs : List Nat) (num : Limbs), (∀ c ∈ bs, c < 256) → NumOk den num →
+    ∀ (bs : List Nat) (num : Limbs), (∀ c ∈ bs, c < 256) → NumOk radix den num →
       match stepsN radix (valL den) (dv radix bs) (valL num) with
       | .inl o => fractionCompare cap radix den bs num = .done o
       | .inr x' => if x' = 0 then ∃ num', fractionCompare cap radix den bs num = .cont num'
@@ -374,7 +371,7 @@ theorem skipZeros_lt {bs : List Nat} (h : ∀ c ∈ bs, c < 256) : ∀ c ∈ Bin
   exact h c ((List.dropWhile_suffix _).subset hc)
 
 /-- **`compare_bytes`** on the significant bytes of a `Number` is the digit comparison of their values; no panic -/
-theorem compareBytes_spec {cap radix : Nat} {den num : Limbs} (D : DenOk cap radix den) (N : NumOk den num)
+theorem compareBytes_spec {cap radix : Nat} {den num : Limbs} (D : DenOk cap radix den) (N : NumOk radix den num)
     (integer : List Nat) (fraction : Option (List Nat)) (hbi : ∀ c ∈ integer, c < 256)
     (hbf : ∀ fr, fraction = some fr → ∀ c ∈ fr, c < 256) (hne : sigBytes integer fraction ≠ []) :
     compareBytes cap radix integer fraction num den =
